@@ -116,7 +116,7 @@ def gen_op(rng: random.Random, cfg: dict, kind: str | None = None) -> dict:
             cls += ["div_parent", "div_child", "div_child"]
         op.update(n=_sel(rng, cls), reinvert=reinv)
         if inval:
-            op["invalid"] = "unknown"
+            op["invalid"] = rng.choice(["unknown", "unknown", "bad_pixels"])
     elif kind == "add_edge":
         r = rng.random()
         mode = "fwd"
@@ -147,7 +147,7 @@ def gen_op(rng: random.Random, cfg: dict, kind: str | None = None) -> dict:
         if inval:
             op["invalid"] = rng.choice(["count", "unknown"])
     elif kind == "update_attrs":
-        key = rng.choice(["score", "score", "@pos"])
+        key = rng.choice(["score", "score", "@pos", "note"])  # "note": a key that is no registered feature
         if inval or (fl.get("toggle_ids") and rng.random() < 0.4):
             key = rng.choice(["@time", "@managed", "@managed"])
         op.update(n=_sel(rng, ["any"]), key=key, val=rng.choice([0.0, round(rng.random(), 3), round(rng.random(), 3)]), k=rng.randrange(16), multi=rng.random() < 0.2, reinvert=reinv)
